@@ -13,6 +13,7 @@ A unit template (vf/units/<unit>.rs) is ordinary Verus text plus directive lines
   //@ BEFORE[#n] / //@ AT / //@ ENDBEFORE   text inserted before the n-th occurrence of the
   //@ AFTER[#n] / //@ AT / //@ ENDAFTER     token sequence given between the marker and AT
   //@ SUBST <rule>[#n|*] / //@ WITH / //@ ENDSUBST  token-sequence replacement (R3..R7,R9)
+  //@ R10ENTRYPUSH <helper>          every `X.entry(K).and_modify(|v| v.push(E1)).or_insert_with(|| vec![E2]);` -> `helper(&mut X, K, E1, E2);`
   //@ BYTESTR                        R2: every byte-string literal b".." becomes `&[b0, b1, ..]` (same bytes, readable by Verus)
   //@ BODYONLY                       emit only the statements of the body (for R7 block lifts,
   //@                                together with FROM/TO anchors)
@@ -207,6 +208,8 @@ class Extractor:
                 d["expand"].append(w[1])
             elif k == "R10MAPTAIL":
                 d["maptail"] = True
+            elif k == "R10ENTRYPUSH":
+                d["entrypush"] = w[1]
             elif k == "FOREACH":
                 # //@ FOREACH <n> <iter-name> | //@ FOREACH @<iter-name> <key tokens of the closure body>
                 txt, _ = grab(["ENDFOREACH"])
@@ -699,6 +702,66 @@ class Extractor:
                 pieces.append(Piece(o, o, "{ ", "ins"))
                 o = toks[pc].start - base
                 pieces.append(Piece(o, o, " }", "ins"))
+
+        # R10 (entry push): every statement  X.entry(K).and_modify(|v| v.push(E1)).or_insert_with(|| vec![E2]);  (closure bodies with or
+        # without braces) becomes  HELPER(&mut X, K, E1, E2);  - the two element expressions are kept as written, so a slip in either
+        # is seen by the proof (the helper's contract: push E1 under a present key, else insert vec![E2]).  E1/E2 are evaluated
+        # eagerly instead of inside the closures: the directive is only for pure element expressions (checked: no `?`, return, `=`).
+        if d.get("entrypush"):
+            helper = d["entrypush"]
+            nfound = 0
+            q = body_lo
+            while q < body_hi - 12:
+                if not (toks[q].kind == "id" and toks[q + 1].text == "." and toks[q + 2].text == "entry" and toks[q + 3].text == "(" and (q + 3) in src.tbl):
+                    q += 1
+                    continue
+                kc = src.tbl[q + 3]
+                t = kc + 1
+                if not (toks[t].text == "." and toks[t + 1].text == "and_modify" and toks[t + 2].text == "(" and (t + 2) in src.tbl
+                        and toks[t + 3].text == "|" and toks[t + 4].kind == "id" and toks[t + 5].text == "|"):
+                    q += 1
+                    continue
+                amc = src.tbl[t + 2]
+                vname = toks[t + 4].text
+                b0, b1 = t + 6, amc - 1
+                if toks[b0].text == "{" and src.tbl.get(b0) == b1:
+                    b0, b1 = b0 + 1, b1 - 1
+                    while toks[b1].text == ";":
+                        b1 -= 1
+                if not (toks[b0].text == vname and toks[b0 + 1].text == "." and toks[b0 + 2].text == "push" and toks[b0 + 3].text == "(" and src.tbl.get(b0 + 3) == b1):
+                    q += 1
+                    continue
+                e1 = orig[toks[b0 + 4].start - base:toks[b1 - 1].end - base]
+                t2 = amc + 1
+                if not (toks[t2].text == "." and toks[t2 + 1].text == "or_insert_with" and toks[t2 + 2].text == "(" and (t2 + 2) in src.tbl
+                        and toks[t2 + 3].text == "||" or (toks[t2 + 3].text == "|" and toks[t2 + 4].text == "|")):
+                    q += 1
+                    continue
+                oic = src.tbl[t2 + 2]
+                c0 = t2 + 4 if toks[t2 + 3].text == "||" else t2 + 5
+                c1 = oic - 1
+                if toks[c0].text == "{" and src.tbl.get(c0) == c1:
+                    c0, c1 = c0 + 1, c1 - 1
+                if not (toks[c0].text == "vec" and toks[c0 + 1].text == "!" and toks[c0 + 2].text == "[" and src.tbl.get(c0 + 2) == c1):
+                    q += 1
+                    continue
+                e2 = orig[toks[c0 + 3].start - base:toks[c1 - 1].end - base]
+                if toks[oic + 1].text != ";":
+                    q += 1
+                    continue
+                if any(toks[x].text in ("?", "return", "=", "break", "continue") for x in list(range(b0, b1)) + list(range(c0, c1))):
+                    raise UnitError("R10ENTRYPUSH: element expression is not pure in %s %s" % (kind, name))
+                xname = toks[q].text
+                kexpr = orig[toks[q + 4].start - base:toks[kc - 1].end - base]
+                s0, s1 = toks[q].start - base, toks[oic + 1].end - base
+                pieces.append(Piece(s0, s1, "%s(&mut %s, %s, %s, %s);" % (helper, xname, kexpr, e1, e2), "subst", old=orig[s0:s1], rule="R6"))
+                bump("R6")
+                line = src.text.count("\n", 0, toks[q].start) + 1
+                self.lifts.append("%s:%d R10 `%s.entry(..).and_modify(|v| v.push(E1)).or_insert_with(|| vec![E2]);` -> `%s(&mut %s, .., E1, E2);`" % (rel, line, xname, helper, xname))
+                nfound += 1
+                q = oic + 1
+            if nfound == 0:
+                raise LostAnchor("%s: R10ENTRYPUSH: no entry/and_modify(push)/or_insert_with(vec!) statement in %s %s" % (rel, kind, name))
 
         # R10 (tail map): when the function's tail expression is  X.as_ref().map(|v| { BODY }).unwrap_or(D)  it is rewritten to
         #   match X.as_ref() { Some(v) => { BODY } None => D }
